@@ -237,6 +237,116 @@ def property_check(ctx, case, r):
                 return
 
 
+# ---- scale equivariance under exact powers of two (failing-input search on the real code) -------------------
+# PCHIP is homogeneous of degree 1 in the values: every operation of the standard formula is of degree 1, 0 or -1
+# in y, so scaling y by s = 2^k commutes with every rounding as long as nothing leaves the normal range.  Hence
+# PCHIP1D(x, s*y)(q) must equal s*PCHIP1D(x, y)(q) for finite normal data - a property-level oracle that needs
+# neither the Coq model nor SciPy and therefore still yields a concrete replay when the bit-exact tie is broken.
+SCALE_K = {"float64": [100, 300, 500, 700, -100, -300, -500, -700], "float32": [30, 60, 90, -30, -60, -90]}
+RANGE_EXP = {"float64": 1000, "float32": 120}   # |scaled quantity| must stay within 2^+-this (normal, with margin)
+NONFINITE = "pchip-nonfinite-for-finite-data"
+NOT_EQUIV = "pchip-not-scale-equivariant"
+SIGN_UNDERFLOW = "pchip-sign-product-underflow"
+
+
+def _run_dtype(x, y, q, dtype):
+    import torch
+    from emu_base.math.pchip_torch import PCHIP1D
+
+    p = PCHIP1D(torch.tensor(x, dtype=dtype), torch.tensor(y, dtype=dtype))
+    v = p(torch.tensor(q, dtype=dtype))
+    return [float(a) for a in p._coeffs.flatten()], [float(a) for a in v]
+
+
+def scale_check(ctx, case, k, dtname, report=True):
+    """Returns 'skipped' / 'ok' / finding key."""
+    import torch
+
+    dtype = getattr(torch, dtname)
+    fi = torch.finfo(dtype)
+    cast = (lambda a: float(torch.tensor(a, dtype=dtype))) if dtname == "float32" else float
+    x, y, q = [cast(a) for a in case["x"]], [cast(a) for a in case["y"]], [cast(a) for a in case["q"]]
+    n = len(x)
+    if n < 2 or any(x[i + 1] <= x[i] for i in range(n - 1)) or not all(math.isfinite(a) for a in x + y + q):
+        return "skipped"
+    s = 2.0 ** k
+    try:
+        co0, v0 = _run_dtype(x, y, q, dtype)
+    except ValueError:
+        return "skipped"
+    sec = [(y[i + 1] - y[i]) / (x[i + 1] - x[i]) for i in range(n - 1)]
+    hs = [x[i + 1] - x[i] for i in range(n - 1)]
+    if not all(math.isfinite(a) for a in co0 + v0):
+        return "skipped"
+    # narrowed exclusion: only where the STANDARD formula's own quantities (data, secants, w/secant, coefficients,
+    # values; all of degree +-1 in y) would leave the normal range after scaling
+    E = RANGE_EXP[dtname]
+    lo, hi = 2.0 ** (-E), 2.0 ** E
+    deg1 = [abs(a) for a in y + sec + co0 + v0 if a != 0]
+    if deg1 and (max(deg1) * s > hi or min(deg1) * s < lo):
+        return "skipped"
+    nz = [abs(a) for a in sec if a != 0]
+    if nz and (3 * max(hs) / (min(nz) * s) > hi or min(hs) / (max(nz) * s) < lo):
+        return "skipped"
+    ys = [a * s for a in y]
+    co1, v1 = _run_dtype(x, ys, q, dtype)
+    # does a product of two adjacent scaled secants underflow to zero (sign tests written as products)?
+    under = any(sec[i] != 0 and sec[i + 1] != 0 and float(torch.tensor(sec[i] * s, dtype=dtype) * torch.tensor(sec[i + 1] * s, dtype=dtype)) == 0.0
+                for i in range(n - 2))
+    ymax = max(abs(a) for a in ys) + fi.tiny
+    tol = 1e-9 * ymax if dtname == "float64" else 1e-3 * ymax
+    what, key = None, None
+    if not all(math.isfinite(a) for a in co1 + v1):
+        j = next(i for i, a in enumerate(co1 + v1) if not math.isfinite(a))
+        what = (f"finite data (|y| <= {ymax:.3g}, {dtname}) give a non-finite interpolant: "
+                + (f"coefficient {j % 4} of piece {j // 4}" if j < len(co1) else f"P({q[j - len(co1)]!r})") + " is not finite")
+        key = NONFINITE
+    if key is None:
+        for qq, v in zip(q, v1):
+            if x[0] <= qq <= x[-1]:
+                i = max(0, min(n - 2, sum(1 for a in x if a <= qq) - 1))
+                if qq in x and abs(v - ys[x.index(qq)]) > tol:
+                    what, key = f"P(x[{x.index(qq)}]) = {v!r} differs from the datum {ys[x.index(qq)]!r}", NOT_EQUIV
+                    break
+                if not (min(ys[i], ys[i + 1]) - tol <= v <= max(ys[i], ys[i + 1]) + tol):
+                    what, key = f"P({qq!r}) = {v!r} leaves the data range of interval {i}", NOT_EQUIV
+                    break
+    if key is None:
+        eps = 4 * fi.eps
+        for name, a0, a1 in (("coefficient", co0, co1), ("value", v0, v1)):
+            for j, (u, w) in enumerate(zip(a0, a1)):
+                e = u * s
+                if abs(w - e) > eps * abs(e):
+                    what = (f"{name} {j} of PCHIP1D(x, 2^{k}*y) is {w!r} but 2^{k} * ({name} of PCHIP1D(x, y)) = {e!r} "
+                            f"(relative difference {abs(w - e) / max(abs(e), fi.tiny):.3g}): not scale equivariant")
+                    key = NOT_EQUIV
+                    break
+            if key:
+                break
+    if key is None:
+        return "ok"
+    if under and key == NOT_EQUIV:
+        key = SIGN_UNDERFLOW
+        what += " [a product of two adjacent secants underflows to 0: sign tests written as products]"
+    if report:
+        ctx.violation(f"[{dtname}, values scaled by 2^{k}] " + what,
+                      {"case": {"kind": case["kind"], "x": x, "y": y, "q": q}, "scale_k": k, "dtype": dtname,
+                       "finding_key": key})
+    return key
+
+
+def scale_search(ctx, cases):
+    stats = {"ok": 0, "skipped": 0}
+    todo = [c for c in cases if c["kind"] == "valid" or c["kind"].startswith("corpus")]
+    todo = [c for c in todo if len(c["x"]) <= 60][: ctx.n(120, 1500)]
+    for c in todo:
+        for dtname, ks in SCALE_K.items():
+            for k in ks:
+                r = scale_check(ctx, c, k, dtname)
+                stats[r] = stats.get(r, 0) + 1
+    ctx.extra["scale_equivariance_search"] = {"cases": len(todo), "exponents": SCALE_K, "results": stats}
+
+
 # ---- run -----------------------------------------------------------------------------------------
 def run(ctx):
     from vlib.coqparse import parse
@@ -260,6 +370,7 @@ def run(ctx):
     impl = [impl_run(c) for c in cases]
     for c, r in zip(cases, impl):
         property_check(ctx, c, r)
+    scale_search(ctx, cases)   # independent of the Coq tie: always yields concrete replays
 
     corr_ok, detail = True, ""
     hist = {}
@@ -301,7 +412,9 @@ def run(ctx):
                          "(one correctly rounded operation per Python-level operator, no FMA)",
                          "scipy.interpolate.PchipInterpolator only as a falsifier oracle, never as evidence"]
     ctx.assumptions += ["theorems are in exact real arithmetic (R instance of the model term); rounding is outside",
-                        "falsifier skips cases whose binary64 coefficients overflow to inf/nan",
+                        "the shape/reference falsifier skips cases whose coefficients are non-finite in binary64; the scale-"
+                        "equivariance search narrows this: finite normal data must give finite results unless the standard "
+                        "formula's own degree-1 quantities leave the normal range",
                         "finding F-11 (flat end interval overshoot) is fixed in /repo b976cb3; its witnesses are "
                         "regression cases in corpus/C20.json and would be reported under the same finding key"]
 
@@ -317,6 +430,9 @@ def _hist(v):
 def replay(ctx, path):
     rp = json.loads(open(path).read())
     c = rp["case"]
+    if "scale_k" in rp:
+        print("replay scale check:", scale_check(ctx, c, rp["scale_k"], rp["dtype"]))
+        return
     r = impl_run(c)
     print("replay outcome:", r["outcome"], "values:", r["vals"][:8])
     property_check(ctx, c, r)
